@@ -36,7 +36,9 @@ FULL_KINDS = ["dotdot-pyg", "socket-zip", "fifo-zip", "dangling-zip", "broken-py
 # non-UTF-8 names with the shipped syslog logger in force
 # special files sitting where the server looks for METADATA of another entry: the sidecar of a file, the
 # abstract of the directory or of a sub-directory, a .cap file, the directory cache
-META_NAMES = {"side": "f1.txt.abstract", "side3d": "m2.txt.3d", "dirabs": ".abstract", "subabs": "d/.abstract", "cap": ".cap/f1.txt", "cache": ".cache.pygopherd.dir", "subcache": "d/.cache.pygopherd.dir"}
+META_NAMES = {"side": "f1.txt.abstract", "side3d": "m2.txt.3d", "dirabs": ".abstract", "subabs": "d/.abstract", "cap": ".cap/f1.txt", "cache": ".cache.pygopherd.dir", "subcache": "d/.cache.pygopherd.dir",
+              # ... or where it looks for the hand-written menu of the directory (or of a sub-directory)
+              "gmap": "gophermap", "subgmap": "d/gophermap"}
 # (a dangling link in the place of the cache file is left out: the server writes its cache through it,
 # which creates the target -- a new entry, not an unservable one)
 META_KINDS = ["%s:%s" % (m, k) for m in META_NAMES for k in ("fifo", "socket", "dangling", "loop", "dir") if not (m.endswith("cache") and k == "dangling")]
@@ -567,6 +569,6 @@ def run(ck):
     if pr.extra.get("capped"):
         ck.caps.append("%d shard(s) aborted early after hanging requests" % len(pr.extra["capped"]))
     ck.rule = ("fault sets = singles (%d kinds x 3 sort positions) and pairs of faulty entries planted in a 4-entry directory, x handler lists {UMN (shipped), plain DirHandler}, x %d protocols; "
-               "special files in %d metadata positions (sidecar, directory abstract, .cap file, cache file); plus %d ZIP archives with an unservable member; distinct = (handler list, verdict classes, first fault kind)" % (len(KINDS), len(PROTOS), len(META_NAMES), len(ZIP_MEMBERS)))
+               "special files in %d metadata positions (sidecar, directory abstract, .cap file, cache file, gophermap); plus %d ZIP archives with an unservable member; distinct = (handler list, verdict classes, first fault kind)" % (len(KINDS), len(PROTOS), len(META_NAMES), len(ZIP_MEMBERS)))
     ck.bounds = {"fault_sets": len(cases), "protocols": len(PROTOS)}
     ck.assumptions = ["'entry deleted between enumeration and inspection' is produced by letting the directory enumeration report a name that does not exist; stat -> EACCES is injected at the VFS seam (the checks run as root)"]
